@@ -41,6 +41,9 @@ char *setlocale(int category, const char *locale)
 struct compoundAtom { int Element; double nAtoms; };
 struct compoundAtoms { int nElements; struct compoundAtom *singleElements; };
 int g_el[NMAXEL]; double g_cnt[NMAXEL]; int g_n, g_scan_ok;
+#ifdef LEMMA_SCAN
+int __CPROVER_file_local_xraylib_parser_c_CompoundParserSimple(char s[], struct compoundAtoms *ca, xrl_error **error);   /* the real scanner */
+#else
 int __CPROVER_file_local_xraylib_parser_c_CompoundParserSimple(char s[], struct compoundAtoms *ca, xrl_error **error)
 {
   int i;
@@ -52,6 +55,7 @@ int __CPROVER_file_local_xraylib_parser_c_CompoundParserSimple(char s[], struct 
   for (i = 0; i < g_n; i++) { ca->singleElements[i].Element = g_el[i]; ca->singleElements[i].nAtoms = g_cnt[i]; }
   return 1;
 }
+#endif
 
 void lemma_CompoundParser(void)
 {
@@ -144,11 +148,117 @@ void lemma_add_compound_data(void)
     /* fraction = wA x fA + wB x fB over the entries of A and B with this atomic number (A first when it is at least as long as B) */
     if (NA_EL >= NB_EL) { for (i = 0; i < NA_EL; i++) if (z == ea[i]) e += fa[i] * wA; for (j = 0; j < NB_EL; j++) if (z == eb[j]) e += fb[j] * wB; }
     else { for (j = 0; j < NB_EL; j++) if (z == eb[j]) e += fb[j] * wB; for (i = 0; i < NA_EL; i++) if (z == ea[i]) e += fa[i] * wA; }
+#ifndef ELEMENTS_ONLY
     __CPROVER_assert(__CPROVER_equal(r->massFractions[k], e), "combined mass fraction = wA x fA + wB x fB");
+#endif
   }
   for (i = 0; i < NA_EL; i++) { int f = 0; for (k = 0; k < NA_EL + NB_EL; k++) if (k < r->nElements && r->Elements[k] == ea[i]) f = 1; __CPROVER_assert(f, "every element of the first composition is in the result"); }
   for (j = 0; j < NB_EL; j++) { int f = 0; for (k = 0; k < NA_EL + NB_EL; k++) if (k < r->nElements && r->Elements[k] == eb[j]) f = 1; __CPROVER_assert(f, "every element of the second composition is in the result"); }
   FreeCompoundData(r);
   __CPROVER_assert(0, "CANARY add_compound_data end");
+}
+#endif
+
+/* ------------------------------------------------------------------ the real scanner on fixed formula SHAPES (bounded)
+ * The formula text is a constant (letters A..D stand for element symbols, digits for subscripts); what is symbolic is
+ * the atomic number behind each letter (any of 1..MENDEL_MAX, letters may coincide, or "unknown symbol") and the value
+ * of each subscript (any number in [1e-6, 1e6), or zero).  libc is replaced by its assumed contract in executable form:
+ * bsearch REQUIRES an ascending array (C11 7.22.5.1) and asserts it; qsort sorts exactly the range passed; strtod
+ * converts the whole numeral; the symbol table lookup returns the atomic number behind the letter.                    */
+#ifdef LEMMA_SCAN
+#include <string.h>
+#ifndef SHAPE
+#define SHAPE 0
+#endif
+/* the shapes after the marker merge a parenthesised group into a non-empty list: no back end finishes on them (attempted in the thorough tier) */
+static const char *const g_shapes[] = { "A", "AB", "B3A", "AB2A", "(AB)2", "AbCdB3", "((A))", /*ATTEMPT*/ "A(AB)", "C(BA)", "A(BC)2" };
+int g_z[4], g_known[4], g_zero_seen, g_unknown_seen;
+static struct MendelElement g_me;
+void *bsearch(const void *key, const void *base, size_t n, size_t sz, int (*cmp)(const void *, const void *))
+{
+  size_t i;
+  if (base == (const void *)MendelArraySorted) {   /* symbol table lookup */
+    const char *k = (const char *)key; int idx = k[0] - 'A';
+    __CPROVER_assert(idx >= 0 && idx < 4, "harness: letters A..D only");
+    if (!g_known[idx]) { g_unknown_seen = 1; return NULL; }
+    g_me.Zatom = g_z[idx]; g_me.name = NULL;
+    return &g_me;
+  }
+  __CPROVER_assert(sz == sizeof(struct compoundAtom), "bsearch on the element list");
+  const struct compoundAtom *v = (const struct compoundAtom *)base;
+  for (i = 1; i < n; i++) __CPROVER_assert(cmp(&v[i - 1], &v[i]) < 0, "bsearch is only called on a strictly ascending element list");
+  for (i = 0; i < n; i++) if (cmp(key, &v[i]) == 0) return (void *)&v[i];
+  return NULL;
+}
+void qsort(void *base, size_t n, size_t sz, int (*cmp)(const void *, const void *))
+{
+  struct compoundAtom *v = (struct compoundAtom *)base, t; size_t i, j;
+  __CPROVER_assert(sz == sizeof(struct compoundAtom), "qsort on the element list");
+  for (i = 1; i < n; i++) for (j = i; j > 0; j--) if (cmp(&v[j - 1], &v[j]) > 0) { t = v[j - 1]; v[j - 1] = v[j]; v[j] = t; }
+}
+/* realloc, assumed contract in executable form, typed by the two growth patterns of the scanner (one pointer / one
+ * element record at a time; asserted): an element-wise copy keeps the constant formula text visible to the symbolic
+ * execution, which CBMC's own model (whole-array copy) does not                                                      */
+void *realloc(void *p, size_t n)
+{
+  size_t old, i; void *q;
+  if (p == NULL) return malloc(n);
+  old = __CPROVER_OBJECT_SIZE(p);
+  q = malloc(n); __CPROVER_assume(q != NULL);
+  if (n == old || n - old == sizeof(char *)) { for (i = 0; i < old / sizeof(char *); i++) ((char **)q)[i] = ((char **)p)[i]; }
+  else {
+    __CPROVER_assert(n - old == sizeof(struct compoundAtom), "harness: realloc grows by one pointer or one element record");
+    for (i = 0; i < old / sizeof(struct compoundAtom); i++) ((struct compoundAtom *)q)[i] = ((struct compoundAtom *)p)[i];
+  }
+  free(p);
+  return q;
+}
+char *strndup(const char *s, size_t n)
+{
+  size_t l = 0, i; char *d;
+  while (l < n && s[l]) l++;
+  d = malloc(l + 1); __CPROVER_assume(d != NULL);
+  for (i = 0; i < l; i++) d[i] = s[i];
+  d[l] = 0;
+  return d;
+}
+double strtod(const char *s, char **end)
+{
+  double v;
+  __CPROVER_assert(g_locale == 0, "strtod runs under the C numeric locale");
+  __CPROVER_assume(v == 0.0 || (v >= 1e-6 && v < 1e6));
+  if (v == 0.0) g_zero_seen = 1;
+  *end = (char *)s + strlen(s);
+  return v;
+}
+void lemma_scanner_shape(void)
+{
+  char buf[16];
+  const char *f = g_shapes[SHAPE];
+  struct compoundAtoms ca = {0, NULL};
+  xrl_error *e = NULL;
+  int i, k, r, used[4] = {0, 0, 0, 0}, any_unknown = 0;
+  for (i = 0; f[i]; i++) { buf[i] = f[i]; if (f[i] >= 'A' && f[i] <= 'D') used[f[i] - 'A'] = 1; }
+  buf[i] = 0;
+  for (k = 0; k < 4; k++) { int z, kn; __CPROVER_assume(z >= 1 && z <= MENDEL_MAX); g_z[k] = z; g_known[k] = kn != 0; if (used[k] && !g_known[k]) any_unknown = 1; }
+  g_fail = 0; g_locale = 0; g_zero_seen = 0; g_unknown_seen = 0;
+  r = __CPROVER_file_local_xraylib_parser_c_CompoundParserSimple(buf, &ca, &e);
+  __CPROVER_assert((r == 1) == (e == NULL) && g_fail == (r == 1 ? 0 : 1), "the scanner fails if and only if exactly one error was stored");
+  __CPROVER_assert((r == 0) == (any_unknown || g_zero_seen), "a well-formed formula is rejected exactly when a symbol is unknown or a subscript is zero");
+  if (r == 1) {
+    __CPROVER_assert(ca.nElements >= 1 && ca.singleElements != NULL, "an accepted formula has elements");
+    for (i = 0; i < 4; i++) if (i < ca.nElements) {
+      int in = 0;
+      __CPROVER_assert(i == 0 || ca.singleElements[i].Element > ca.singleElements[i - 1].Element, "elements strictly ascending, no duplicates");
+      for (k = 0; k < 4; k++) if (used[k] && g_z[k] == ca.singleElements[i].Element) in = 1;
+      __CPROVER_assert(in, "every element of the result occurs in the formula");
+#ifndef NO_COUNTS
+      __CPROVER_assert(ca.singleElements[i].nAtoms > 0.0, "atom counts are positive");   /* shapes without subscripts only: products of symbolic subscripts do not finish */
+#endif
+    }
+    __CPROVER_assert(ca.nElements <= 4, "no more elements than distinct symbols");
+    for (k = 0; k < 4; k++) if (used[k]) { int in = 0; for (i = 0; i < 4; i++) if (i < ca.nElements && ca.singleElements[i].Element == g_z[k]) in = 1; __CPROVER_assert(in, "every element of the formula occurs in the result"); }
+    __CPROVER_assert(0, "CANARY accepted shape");
+  }
 }
 #endif
